@@ -42,7 +42,8 @@ def make_plan(pid, tier, seed, ctx):
         modules[mn] = [('harness/C15_api.cpp', 'coro20', (MODEL_INC, '-DOPT_A=' + oa, '-DOPT_B=' + ob))] + [(l, 'coro20', (MODEL_INC,)) for l in LIB]
         mopts[mn] = {'nthreads': 2, 'heap': 2048, 'stack': 4096, 'preempt': True}
         units = ['c15_start_%s_%d' % (f, i) for f in forms for i in range(3)] + tries
-        head = core.decls(units) + 'void c15_prologue(uint32_t);\nvoid c15_epilogue(uint32_t, uint32_t);\n' + core.unit_selector(units)
+        hold_units = ['c15_release', 'c15_start_w_hold_3', 'c15_start_r_hold_3', 'c15_start_m_hold_3']
+        head = core.decls(units + hold_units) + 'void c15_prologue(uint32_t);\nvoid c15_epilogue(uint32_t, uint32_t);\n' + core.unit_selector(units + hold_units)
         first = [True]
 
         def add(name, text, what, fam):
@@ -60,6 +61,23 @@ def make_plan(pid, tier, seed, ctx):
                         nm = '%s_k%s' % (base, 'none' if k < 0 else k)
                         add(nm, entry(nm, dfr, pre, ua, units.index(ub) + 1, post, k, workers, 1 if shared else 0, kmax),
                             '<%s,%s>: coroutine %s (outer) vs coroutine %s at operation #%s; third %s; executors %s' % (oa, ob, fa, fb, 'after the end' if k < 0 else k, third, 'deferred' if dfr else 'inline'), base)
+        # a holder parked INSIDE its critical section while three more coroutines arrive, then the release (sequential + release racing with the last arrival)
+        holders = [('w_hold', ['r_lock', 'w_lock', 'w_guard']), ('w_hold', ['w_lock', 'r_lock', 'w_guard']), ('w_hold', ['w_lock', 'w_guard', 'r_lock']), ('r_hold', ['w_lock', 'r_lock', 'w_guard']),
+                   ('r_hold', ['r_guard', 'w_lock', 'w_guard'])] if shared else [('m_hold', ['lock_unlock', 'guard', 'lock_unlockhere']), ('m_hold', ['lock_unlockon', 'lock_unlock', 'guardsticky'])]
+        units_h = units + hold_units
+        for hi, (h, arr) in enumerate(holders):
+            pre = ['c15_start_%s_3' % h] + ['c15_start_%s_%d' % (f, i) for i, f in enumerate(arr[:2])]
+            last = 'c15_start_%s_2' % arr[2]
+            base = '%s_hold%d_%s__%s' % (mn, hi, h, '_'.join(arr))
+            for dfr in ((0, 1) if (oa, ob) == opts[0] else (1,)):   # inline executors nest 4 resumptions: symex does not finish for the other option sets
+                for k in range(-1, kmax):
+                    nm = '%s%s_k%s' % (base, '_d' if dfr else '', 'none' if k < 0 else k)
+                    add(nm, entry(nm, dfr, pre, last, units_h.index('c15_release') + 1, [], k, 4, 1 if shared else 0, kmax),
+                        '<%s,%s>: %s parked inside its critical section, arrivals %s; release at operation #%s of the last arrival; executors %s' % (oa, ob, h, arr, 'after the end' if k < 0 else k, 'deferred' if dfr else 'inline'), base)
+                    if tier != 'quick':   # roles swapped: the last arrival runs at operation #k of the release
+                        nm = '%s%s_swap_k%s' % (base, '_d' if dfr else '', 'none' if k < 0 else k)
+                        add(nm, entry(nm, dfr, pre, 'c15_release', units_h.index(last) + 1, [], k, 4, 1 if shared else 0, kmax),
+                            '<%s,%s>: %s parked inside its critical section, arrivals %s; last arrival at operation #%s of the release; executors %s' % (oa, ob, h, arr, 'after the end' if k < 0 else k, 'deferred' if dfr else 'inline'), base + '_swap')
         for t in tries:   # Try* prober racing with a holder
             for f in forms[:2] + forms[2:3]:
                 ua = 'c15_start_%s_0' % f
